@@ -31,6 +31,7 @@ FORMS = [
     "empty-precondition",
     "either-less-mixed-list",
     "not-in-init",
+    "implicit-zero-cost",
 ]
 
 
@@ -318,6 +319,10 @@ class Printer:
                     c = self.nexp(costs["costs"][a["name"]])
                 elif costs.get("default") is not None:
                     c = self.nexp(costs["default"])
+                if c is not None and c.strip() in ("0", "0.0", "0.00") and r.random() < 0.6:
+                    # an action without cost effect costs 0: both readers must fall back to the same default
+                    self.forms.add("implicit-zero-cost")
+                    c = None
                 if c is not None:
                     effs.append(f"(increase (total-cost) {c})")
             eff_s = effs[0] if len(effs) == 1 and r.random() < 0.4 else f"(and {' '.join(effs)})"
